@@ -916,9 +916,56 @@ func c16EndToEnd(e *Env, site c16Site, astConst []byte, nctx int, tag string) {
 			}
 		}
 	}
+	// the loader routes hand the engine the stored source itself: CompiledLoader.Load returns it byte for byte, and an
+	// engine that reads the compiled files through the loader (Load, LoadCompiled, CompileTemplate; cache on or off)
+	// holds — and recompiles to — exactly the source that was compiled (added after seeded change C16-O was missed:
+	// the recompile check used to cover the in-memory routes only)
+	eng10 := twig.New() // CompiledLoader as an ordinary loader, cache off: every render reads the file again
+	eng10.SetCache(false)
+	eng10.RegisterLoader(twig.NewCompiledLoader(dir))
+	eng11 := twig.New() // LoadCompiled one by one
+	reader := twig.NewCompiledLoader(dir)
+	eng11.RegisterLoader(reader)
+	for _, name := range names {
+		name := name
+		step(name, "LoadCompiled", func() error { return reader.LoadCompiled(eng11, name) })
+	}
+	if !ok {
+		return
+	}
+	for _, name := range names {
+		c := compiled[name]
+		stored, err := reader.Load(name)
+		if err != nil || stored != c.Source {
+			viol("loader-source", "CompiledLoader.Load does not return the source that was compiled", map[string]any{"template": name, "source_hex": c16short(hx(c.Source)), "loaded_hex": c16short(hx(stored)), "err": fmt.Sprint(err)})
+			return
+		}
+		for _, rt := range []struct {
+			route string
+			eng   *twig.Engine
+		}{{"CompiledLoader", eng4}, {"CompiledLoader.LoadAll", eng5}, {"CompiledLoader-cache-off", eng10}, {"CompiledLoader.LoadCompiled", eng11}} {
+			var rc *twig.CompiledTemplate
+			res := guarded(func() (string, error) {
+				var err error
+				rc, err = rt.eng.CompileTemplate(name)
+				return "", err
+			})
+			if res.Class == "panic" || res.Class == "timeout" || res.Err != nil || rc == nil {
+				viol("e2e-load", fmt.Sprintf("template read from its compiled file cannot be compiled again: %v %s", res.Err, res.Panic), map[string]any{"template": name, "route": rt.route})
+				return
+			}
+			if rc.Name != c.Name || rc.Source != c.Source || !bytes.Equal(rc.AST, c.AST) {
+				viol("e2e-recompile-"+rt.route, "an engine that read the compiled file through the loader holds a different name or source than the one that was compiled",
+					map[string]any{"template": name, "route": rt.route, "source_hex": c16short(hx(c.Source)), "before": c16Fields(c), "after": c16Fields(rc)})
+				break // the renders below show what the difference does to the output
+			}
+		}
+	}
 	// engines that are not fresh: an earlier release of every template is registered already; the cache is off;
 	// development mode is on — the compiled data registered afterwards is what renders
-	eng6, eng7, eng8, eng9 := twig.New(), twig.New(), twig.New(), twig.New()
+	// eng12/eng13: the compiled snapshot carries an older timestamp than the release it replaces (LastModified 0 as from a
+	// loader without timestamps; a day old) — whether that happens for eng6/eng9 depends on the wall clock crossing a second
+	eng6, eng7, eng8, eng9, eng12, eng13 := twig.New(), twig.New(), twig.New(), twig.New(), twig.New(), twig.New()
 	eng7.SetCache(false)
 	eng8.SetDevelopmentMode(true)
 	for _, name := range names {
@@ -928,6 +975,15 @@ func c16EndToEnd(e *Env, site c16Site, astConst []byte, nctx int, tag string) {
 				return err
 			}
 			if _, err := eng6.Render(name, nil); err != nil {
+				return err
+			}
+			if err := eng12.RegisterString(name, "OLD RELEASE of "+name); err != nil {
+				return err
+			}
+			if _, err := eng12.Render(name, nil); err != nil {
+				return err
+			}
+			if err := eng13.RegisterString(name, "OLD RELEASE of "+name); err != nil {
 				return err
 			}
 			return eng9.RegisterString(name, "OLD RELEASE of "+name)
@@ -944,6 +1000,12 @@ func c16EndToEnd(e *Env, site c16Site, astConst []byte, nctx int, tag string) {
 		step(name, "RegisterCompiledTemplate with the cache off", func() error { return eng7.RegisterCompiledTemplate(c) })
 		step(name, "LoadFromCompiledData in development mode", func() error { return eng8.LoadFromCompiledData(data) })
 		step(name, "LoadFromCompiledData over an old release", func() error { return eng9.LoadFromCompiledData(data) })
+		unstamped, dayOld := *c, *c
+		unstamped.LastModified = 0
+		dayOld.LastModified = c.LastModified - 86400
+		dayOldData, _ := twig.SerializeCompiledTemplate(&dayOld)
+		step(name, "RegisterCompiledTemplate (LastModified 0) over a release registered later", func() error { return eng12.RegisterCompiledTemplate(&unstamped) })
+		step(name, "LoadFromCompiledData (LastModified a day ago) over a release registered later", func() error { return eng13.LoadFromCompiledData(dayOldData) })
 	}
 	if !ok {
 		return
@@ -952,7 +1014,9 @@ func c16EndToEnd(e *Env, site c16Site, astConst []byte, nctx int, tag string) {
 		name string
 		eng  *twig.Engine
 	}{{"RegisterCompiledTemplate", eng2}, {"LoadFromCompiledData", eng3}, {"CompiledLoader", eng4}, {"CompiledLoader.LoadAll", eng5},
-		{"RegisterCompiledTemplate-over-old-release", eng6}, {"RegisterCompiledTemplate-cache-off", eng7}, {"LoadFromCompiledData-development-mode", eng8}, {"LoadFromCompiledData-over-old-release", eng9}}
+		{"CompiledLoader-cache-off", eng10}, {"CompiledLoader.LoadCompiled", eng11},
+		{"RegisterCompiledTemplate-over-old-release", eng6}, {"RegisterCompiledTemplate-cache-off", eng7}, {"LoadFromCompiledData-development-mode", eng8}, {"LoadFromCompiledData-over-old-release", eng9},
+		{"RegisterCompiledTemplate-unstamped-over-later-release", eng12}, {"LoadFromCompiledData-day-old-over-later-release", eng13}}
 	for i := 0; i < nctx; i++ {
 		ctx := c16Ctx(e.Rng)
 		for _, entry := range site.entries {
@@ -967,11 +1031,18 @@ func c16EndToEnd(e *Env, site c16Site, astConst []byte, nctx int, tag string) {
 			} else {
 				r.Hit("e2e:source-render-ok")
 			}
+			// direct computation: a source without any "{" is text and renders as itself, byte for byte
+			verbatim := !strings.Contains(site.tpls[entry], "{")
+			if verbatim && (want.err != "" || want.out != site.tpls[entry]) {
+				viol("text-source-not-verbatim", fmt.Sprintf("template %q has no tag at all but the source engine does not render it as itself", entry),
+					map[string]any{"entry": entry, "entry_source_hex": c16short(hx(site.tpls[entry])), "source_out_hex": c16short(hx(want.out)), "source_err": want.err})
+				return
+			}
 			for _, rt := range routes {
 				got := c16RenderOn(rt.eng, entry, ctx)
 				if got != want {
 					viol("e2e-render-"+rt.name, fmt.Sprintf("template %q loaded through %s renders differently from its source", entry, rt.name),
-						map[string]any{"entry": entry, "route": rt.name, "context": fmt.Sprint(ctx), "source_out_hex": c16short(hx(want.out)), "source_err": want.err,
+						map[string]any{"entry": entry, "route": rt.name, "entry_source_hex": c16short(hx(site.tpls[entry])), "context": fmt.Sprint(ctx), "source_out_hex": c16short(hx(want.out)), "source_err": want.err,
 							"compiled_out_hex": c16short(hx(got.out)), "compiled_err": got.err, "compiled_panic": got.pn})
 					return
 				}
@@ -1048,7 +1119,8 @@ func runC16(e *Env) error {
 		"sizes 0..63, 255..257, 65535..65537, 2^20±1, timestamps incl. min/max/negative; (b) DeserializeCompiledTemplate vs Codec.decode on each valid encoding, with junk appended, " +
 		"every truncation (encodings ≤ 400 bytes; field boundaries ±1 otherwise) and one-byte mutations (every position for ≤ 400 bytes), plus all 256 second bytes after 0x01 (GobFacts) and legacy gob streams; " +
 		"(c) handwritten and generated sites (text, print, if, for, set, include, macros/import/from/_self, extends/blocks, verbatim, whitespace control, 80 KiB) compiled → serialised → deserialised → " +
-		"loaded on fresh engines via RegisterCompiledTemplate, LoadFromCompiledData, CompiledLoader (temp dir) and LoadAll, rendered on random contexts against the source engine; raw/broken sources and crafted AST bytes. " +
+		"loaded on fresh engines via RegisterCompiledTemplate, LoadFromCompiledData, CompiledLoader (temp dir; cache on/off), LoadCompiled and LoadAll, rendered on random contexts against the source engine, recompiled on every route; " +
+		"source edges: 42 byte sequences (byte order marks, line ends, white space, NUL, DOS EOF, invalid/denormalised UTF-8, lone tag characters) at head, tail, both ends, middle, second line and alone around text/print/tag bodies through all routes; raw/broken sources and crafted AST bytes. " +
 		"non-trivial = some field non-empty (a,b) / source output non-empty (c); distinct by encoding resp. (template, context)"
 	// what CompileTemplate stores as AST in this process (a gob type descriptor; see Codec.astExample)
 	astConst := c16AstOfThisProcess()
@@ -1191,9 +1263,13 @@ func runC16(e *Env) error {
 			r.Sample(map[string]any{"kind": "end-to-end", "site": s.tpls})
 		}
 	}
+	c16SourceEdges(e, astConst)
 	ns := e.N(250, 4000)
 	for i := 0; i < ns && !r.Full(); i++ {
 		s := c16GenSite(e.Rng)
+		if i%3 == 2 {
+			s = c16MarkSite(e.Rng, s)
+		}
 		if i == 0 {
 			r.Sample(map[string]any{"kind": "end-to-end", "site": s.tpls})
 		}
